@@ -18,13 +18,13 @@ var c03Spec *EnumSpec
 func c03Cfg(s *EnumSpec, v []int) RCfg {
 	cfg := RCfg{Name: c03Names,
 		Listens: []RListen{{Addr: "127.0.0.1", UDP: 5060, TCP: 5062, Backends: []string{"udp://127.0.1.1:7000", "tcp://127.0.1.2:7000"}}},
-		Routes: []RRoute{{Dests: []string{"static.example.org"}, Protocol: "udp", NextHop: "st.example.net:5080"},
+		Routes: []RRoute{{Dests: []string{"static.example.org"}, Protocol: "udp", NextHop: "1st.example.net:5080"},
 			{Dests: []string{"*.wild.example.org"}, Protocol: "tcp", NextHop: "127.0.3.2:5090"},
 			// an exact entry for a host the wildcard entry also matches (and whose text is no longer than the pattern)
 			{Dests: []string{"a.wild.example.org"}, Protocol: "udp", NextHop: "127.0.3.4:5085"},
 			// one entry with several destinations, the wildcard not first
 			{Dests: []string{"multi.example.org", "*.multi.example.org", "other-multi.example.org"}, Protocol: "udp", NextHop: "127.0.2.2:5070"}},
-		Hosts: [][2]string{{"proxy.example.com", "127.0.0.1"}, {"nh.example.net", "127.0.2.1"}, {"st.example.net", "127.0.3.1"}},
+		Hosts: [][2]string{{"proxy.example.com", "127.0.0.1"}, {"nh.example.net", "127.0.2.1"}, {"1st.example.net", "127.0.3.1"}, {"3gpp-nh.example.net", "127.0.2.1"}},
 	}
 	switch s.Val(v, "names") {
 	case "single":
@@ -53,7 +53,7 @@ func c03Cfg(s *EnumSpec, v []int) RCfg {
 }
 
 func c03Msg(s *EnumSpec, v []int) *WMsg {
-	hop := "sip:" + map[string]string{"ip": "127.0.2.1", "name": "nh.example.net"}[s.Val(v, "hophost")]
+	hop := "sip:" + map[string]string{"ip": "127.0.2.1", "name": "nh.example.net", "digit-name": "3gpp-nh.example.net"}[s.Val(v, "hophost")]
 	if p := s.Val(v, "hopport"); p != "absent" {
 		hop += ":" + p
 	}
@@ -248,7 +248,7 @@ func init() {
 	c03Spec = &EnumSpec{
 		Feats: []Feat{
 			{Name: "route", Vals: []string{"none", "own", "own+next", "next", "next+further", "own-alias", "own-alias+next"}},
-			{Name: "hophost", Vals: []string{"ip", "name"}},
+			{Name: "hophost", Vals: []string{"ip", "name", "digit-name"}},
 			{Name: "hopport", Vals: []string{"absent", "5060", "5070"}},
 			{Name: "hoptransport", Vals: []string{"absent", "udp", "tcp", "TCP", "tls", "sctp", "UDP"}, Quick: 5},
 			{Name: "hoplr", Vals: []string{"lr", "none"}},
